@@ -139,6 +139,7 @@ type Env struct {
 	Note      func(string)
 	loopDepth int
 	blkDepth  int
+	ranged    []uintptr // maps currently being ranged over (forRange)
 	// OnBin, if set, observes the operand values of every arithmetic / comparison.
 	OnBin func(op string, l, r Val)
 }
@@ -1055,6 +1056,8 @@ func (e *Env) stmt(s *dsl.Stmt) (int, Val, *Err) {
 		var keys []reflect.Value
 		if cv.Kind() == reflect.Map {
 			keys = cv.MapKeys()
+			e.ranged = append(e.ranged, cv.Pointer())
+			defer func() { e.ranged = e.ranged[:len(e.ranged)-1] }()
 		} else {
 			for i := 0; i < cv.Len(); i++ {
 				keys = append(keys, reflect.ValueOf(i))
@@ -1276,6 +1279,14 @@ func (e *Env) setIndex(t *dsl.Expr, v Val) *Err {
 		}
 		if cv.IsNil() {
 			return errf("nil", "store into nil map")
+		}
+		if !cv.MapIndex(rk).IsValid() {
+			for _, p := range e.ranged {
+				if p == cv.Pointer() {
+					// the key set of a map that changes while it is ranged over is not defined
+					e.unspecified("key inserted into a map while it is ranged over")
+				}
+			}
 		}
 		cv.SetMapIndex(rk, ev)
 		return nil
